@@ -214,6 +214,83 @@ static bool booleanPredicate(Function &F) {
   return anyRet;
 }
 
+// READ_WORD32-style accessors written as functions: (pointer, offset) -> value, or (pointer, offset, value) ->
+// void.  Small, loop-free, call-free; every memory access goes through a pointer parameter at an index that depends
+// on an integer parameter.  Inlined, so that the access appears at the call site with its constant offset.
+static Value *throughSlot(Value *V, int depth = 0) {
+  // -O0: parameters are spilled to allocas; look through one load of such a slot and through casts / adds
+  while (V && depth++ < 8) {
+    if (auto *C = dyn_cast<CastInst>(V)) { V = C->getOperand(0); continue; }
+    if (auto *L = dyn_cast<LoadInst>(V)) {
+      if (auto *A = dyn_cast<AllocaInst>(L->getPointerOperand())) {
+        Value *stored = nullptr;
+        unsigned n = 0;
+        for (User *U : A->users())
+          if (auto *S = dyn_cast<StoreInst>(U))
+            if (S->getPointerOperand() == A) { stored = S->getValueOperand(); ++n; }
+        if (n == 1) { V = stored; continue; }
+      }
+      return V;
+    }
+    if (auto *B = dyn_cast<BinaryOperator>(V)) {
+      if (isa<ConstantInt>(B->getOperand(1))) { V = B->getOperand(0); continue; }
+      if (isa<ConstantInt>(B->getOperand(0))) { V = B->getOperand(1); continue; }
+      return V;
+    }
+    if (auto *G = dyn_cast<GetElementPtrInst>(V)) { V = G->getPointerOperand(); continue; }
+    return V;
+  }
+  return V;
+}
+
+static bool accessorHelper(Function &F) {
+  if (hasLoop(F) || realInsts(F) > 90) return false;
+  bool ptrParam = false, intParam = false;
+  for (Argument &A : F.args()) {
+    if (A.getType()->isPointerTy()) ptrParam = true;
+    if (A.getType()->isIntegerTy()) intParam = true;
+  }
+  if (!ptrParam || !intParam) return false;
+  bool indexed = false;
+  for (Instruction &I : instructions(F)) {
+    if (isRealCall(I)) return false;
+    Value *P = nullptr;
+    if (auto *L = dyn_cast<LoadInst>(&I)) P = L->getPointerOperand();
+    if (auto *S = dyn_cast<StoreInst>(&I)) P = S->getPointerOperand();
+    if (!P || isa<AllocaInst>(P)) continue;
+    // every access to non-local memory: base must come from a pointer parameter
+    // walk the address chain (GEPs, casts, -O0 slots) down to its base, noting parameter-dependent indices
+    Value *V = P;
+    bool idx = false;
+    for (int depth = 0; V && depth < 16; ++depth) {
+      V = V->stripPointerCasts();
+      if (auto *G = dyn_cast<GetElementPtrInst>(V)) {
+        for (Value *Ix : G->indices())
+          if (auto *IA = dyn_cast_or_null<Argument>(throughSlot(Ix)))
+            if (IA->getType()->isIntegerTy()) idx = true;
+        V = G->getPointerOperand();
+        continue;
+      }
+      if (auto *L = dyn_cast<LoadInst>(V)) {
+        auto *A = dyn_cast<AllocaInst>(L->getPointerOperand());
+        if (!A) return false;
+        Value *stored = nullptr;
+        unsigned n = 0;
+        for (User *U : A->users())
+          if (auto *S = dyn_cast<StoreInst>(U))
+            if (S->getPointerOperand() == A) { stored = S->getValueOperand(); ++n; }
+        if (n != 1) return false;
+        V = stored;
+        continue;
+      }
+      break;
+    }
+    if (!V || !isa<Argument>(V)) return false;
+    if (idx) indexed = true;
+  }
+  return indexed;
+}
+
 static bool selfRecursive(Function &F) {
   for (Instruction &I : instructions(F))
     if (auto *CB = dyn_cast<CallBase>(&I))
@@ -263,6 +340,8 @@ int main(int argc, char **argv) {
       chosen[&F] = "W helper called only from trivial public wrappers";
     else if (booleanPredicate(F))
       chosen[&F] = "B loop-free call-free predicate / selector helper (returns comparison results or literals)";
+    else if (accessorHelper(F))
+      chosen[&F] = "L loop-free call-free accessor helper (loads / stores at pointer parameter + offset parameter)";
     else if (!hasLoop(F) && varLenMemOnParam(F))
       chosen[&F] = "M loop-free helper with a variable-length memcpy/memset on a parameter";
   }
